@@ -141,6 +141,7 @@ def canon_result(result: Any, env: Env) -> dict:
             "outputParams": list(p.output_params) if p.output_params is not None else None,
             "values": [[k, enc_val(v)] for k, v in p.values.items()] if p.values is not None else None,
             "responseKey": p.response_key,
+            "responseKeys": sorted([k, v] for k, v in p.response_keys.items()),
         }
     return {
         "status": str(getattr(result.status, "value", result.status)).lower(),
